@@ -1,5 +1,5 @@
 #!/bin/sh
 # regenerate _CoqProject and Makefile from the files present (run from /verif/coq)
 cd "$(dirname "$0")"
-{ echo "-R . Kawin"; find Common C[0-9][0-9] -name '*.v' 2>/dev/null | sort; } > _CoqProject
+{ echo "-R . Kawin"; find Common C[0-9][0-9] -name '*.v' -not -path '*/run/*' 2>/dev/null | sort; } > _CoqProject
 coq_makefile -f _CoqProject -o Makefile > /dev/null 2>&1
